@@ -1,5 +1,5 @@
 """C01 JSON text round-trip is lossless and canonical - escape tables, \\u structure, data/size pairing."""
-from .. import frontend as F, ast as A, util as U, peval as P, cfg as C
+from .. import inline as I, frontend as F, ast as A, util as U, peval as P, cfg as C
 from . import c02, c03
 
 EXPLANATION = ('(R01.1) The encoder escape table is extracted from detail::escape_string by partial evaluation for every character '
@@ -132,6 +132,148 @@ def r01_1(chk, facts):
         oks = consts.get('first') == [10, 0xD800] and consts.get('second') == [0x3FF, 0xDC00] and consts.get('sub') == 0x10000 and consts.get('bmp') == 0xFFFF
         if oks: chk.ok('R01.1', site, consts)
         else: chk.fail('R01.1', site, fn['file'], fn['l'], 'surrogate split constants %s differ from (cp > 0xFFFF; cp -= 0x10000; (cp >> 10) + 0xD800; (cp & 0x3FF) + 0xDC00)' % consts, consts, fn['q'])
+
+def r01_9(chk, facts):
+    """The `noesc` tag lets the encoders copy a string without looking at it: it must mean "the text between the quotes had no escape"."""
+    chk.rule('R01.9', 'noesc discipline of the parser: the string tag is set to noesc only at an opening quote (inside a `case \'"\'` of a switch over '
+                      'the input character - never inside parse_string, which is re-entered in the middle of a string after every escape and '
+                      'after every chunk boundary), and the backslash case of the text state of parse_string assigns a tag other than noesc '
+                      'before it enters the escape states', floor=3)
+    tags = dict(U.enum_by_suffix(facts, '::semantic_tag')['values'])
+    noesc = tags.get('noesc')
+    chk.require(noesc is not None, 'semantic_tag::noesc not found')
+    def assigned_tag(x):
+        """(field name, value) for `field = <semantic_tag constant>` on a member"""
+        am = U.assigned_member(x)
+        if not am: return None
+        v = A.const(am[1])
+        if v is None:
+            r = A.strip(am[1], casts=True)
+            # semantic_tag{} value-initialises to the first enumerator (0)
+            if r is not None and r.get('k') in ('CXXScalarValueInitExpr', 'InitListExpr', 'CXXFunctionalCastExpr', 'CXXTemporaryObjectExpr', 'CXXConstructExpr') and not (r.get('args') or r.get('c')): v = 0
+        return am[0], v
+    n = 0
+    for fn in U.one_per_inst([f for f in U.functions(facts, cls='basic_json_parser') if f.get('body') is not None]):
+        # statements of a switch body belong to the case label(s) that precede them (clang hangs only the first statement under the CaseStmt)
+        governing = {}
+        for sw in A.walk_no_lambda(fn['body']):
+            if sw.get('k') != 'SwitchStmt': continue
+            cur = None
+            for labels, st in P.PEval.switch_items(sw.get('body')):
+                if labels: cur = labels
+                if st is None or cur is None: continue
+                for y in A.walk_no_lambda(st):
+                    if y.get('k') == 'SwitchStmt' and y is not st: pass
+                    governing.setdefault(id(y), cur)     # innermost switch wins: inner switches are visited later and overwrite below
+            # (walk order is outer-first; overwrite with inner switches in a second pass)
+        for sw in A.walk_no_lambda(fn['body']):
+            if sw.get('k') != 'SwitchStmt': continue
+            cur = None
+            for labels, st in P.PEval.switch_items(sw.get('body')):
+                if labels: cur = labels
+                if st is None or cur is None: continue
+                for y in A.walk_no_lambda(st): governing[id(y)] = cur
+        for x in A.walk_no_lambda(fn['body']):
+            if x.get('k') not in ('BinaryOperator', 'CXXOperatorCallExpr'): continue
+            at = assigned_tag(x)
+            if not at or 'tag' not in at[0] or at[1] != noesc: continue
+            n += 1
+            chk.analysed(fn)
+            labels = governing.get(id(x)) or []
+            under_quote = bool(labels) and all(lo == 0x22 and hi == 0x22 for lo, hi in labels)
+            site = U.site(fn, '%s = noesc #%d' % (at[0], n))
+            if under_quote: chk.ok('R01.9', site, {'function': fn['q'], 'line': x.get('l')})
+            else:
+                chk.fail('R01.9', site, fn['file'], x.get('l'), '%s is set to noesc in %s outside a `case \'"\'` (line %s): the function is re-entered inside a string, so a string '
+                         'that did contain an escape is handed on as noesc and the encoder writes its control characters and quotes raw' % (at[0], fn['n'], x.get('l')), None, fn['q'])
+        if fn['n'] == 'parse_string':
+            regs = None
+            try:
+                from . import c02
+                regs = c02.label_regions(fn)
+            except Exception:
+                regs = None
+            chk.require(regs and 'text' in regs, 'parse_string: text region not found')
+            ok = False; line = fn['l']
+            for st in regs['text']:
+                for y in A.walk_no_lambda(st):
+                    if y.get('k') == 'CaseStmt' and y.get('lo') == 0x5c:
+                        line = y.get('l')
+                        for z in A.walk_no_lambda(y.get('sub')):
+                            at = assigned_tag(z) if z.get('k') in ('BinaryOperator', 'CXXOperatorCallExpr') else None
+                            if at and 'tag' in at[0] and at[1] is not None and at[1] != noesc: ok = True
+            chk.analysed(fn)
+            site = U.site(fn, 'backslash clears noesc')
+            if ok: chk.ok('R01.9', site, {'function': fn['q']})
+            else: chk.fail('R01.9', site, fn['file'], line, 'the backslash case of the text state of parse_string does not replace the noesc tag: escaped strings keep it', None, fn['q'])
+    chk.require(n >= 1, 'R01.9: no assignment of noesc found in basic_json_parser')
+
+def r01_10(chk, facts):
+    """escape_string returns what it wrote: the pretty printer adds the return value to its column."""
+    chk.rule('R01.10', 'escape_string accounting: on every path through the character loop the returned counter advances by exactly the number '
+                       'of code units pushed to the sink (helpers that receive the sink are inlined); the noesc fast path of the encoder adds the '
+                       'length of what it appends, so both routes give the same column for the same text', floor=2)
+    fns = [f for f in facts.functions if f['n'] == 'escape_string' and f['file'].endswith('json_encoders.hpp') and not f.get('dep') and f.get('body') is not None]
+    chk.require(fns, 'detail::escape_string not instantiated')
+    for fn in U.one_per_inst(fns):
+        chk.analysed(fn)
+        sink_ids = set(p['id'] for p in fn['params'] if fn['_types'][p['t'] - 1].endswith('&') and 'error_code' not in fn['_types'][p['t'] - 1])
+        fx = I.expand(facts, fn, allow=lambda callee, call: takes_sink(call, sink_ids))
+        ret = None
+        for x in A.walk_no_lambda(fx['body']):
+            if x.get('k') == 'ReturnStmt' and x.get('val') is not None:
+                r = A.strip(x['val'], casts=True)
+                if r is not None and r.get('k') == 'DeclRefExpr': ret = r.get('id')
+        chk.require(ret is not None, 'escape_string: returned counter not found')
+        loop = next((x for x in A.walk_no_lambda(fx['body']) if x.get('k') == 'ForStmt'), None)
+        chk.require(loop is not None, 'escape_string: character loop not found')
+        g = C.CFG(loop['body'])
+        def delta(nd):
+            if nd.kind not in ('stmt', 'cond', 'return', 'switch') or not isinstance(nd.ast, dict): return 0
+            d = 0
+            for y in A.walk_no_lambda(nd.ast):
+                if y.get('k') == 'CXXMemberCallExpr' and A.callee_name(y) == 'push_back':
+                    o = A.strip(y.get('obj'), casts=True)
+                    if o is not None and o.get('k') == 'DeclRefExpr' and o.get('id') in sink_ids: d += 1
+                t = None
+                if y.get('k') == 'UnaryOperator' and y.get('op') == '++': t = A.strip(y.get('sub'), casts=True); k = 1
+                if y.get('k') == 'CompoundAssignOperator' and y.get('op') == '+=': t = A.strip(y.get('lhs'), casts=True); k = A.const(y.get('rhs'))
+                if t is not None and t.get('k') == 'DeclRefExpr' and t.get('id') == ret:
+                    if k is None: return None
+                    d -= k
+            return d
+        state = {g.entry.id: {0}}
+        work = [g.entry]; broken = None; where = {}
+        while work:
+            nd = work.pop()
+            cur = state.get(nd.id, set())
+            dl = delta(nd)
+            if dl is None: broken = nd; break
+            out = set(v + dl for v in cur)
+            for s2 in nd.succ:
+                old = state.get(s2.id, set())
+                new_ = old | out
+                if len(new_) > 32: broken = nd; break
+                if new_ != old:
+                    state[s2.id] = new_
+                    for v in out - old: where.setdefault((s2.id, v), nd)
+                    work.append(s2)
+            if broken: break
+        chk.require(broken is None, 'escape_string: counter update at line %s is not a constant step' % (broken.line if broken else 0))
+        ends = set()
+        for ex in (g.exit_return,):
+            ends |= state.get(ex.id, set())
+        ct = fn['_types'][fn['params'][0]['t'] - 1]
+        site = U.site(fn, 'count == pushes (%s)' % ('wchar_t' if 'wchar_t' in ct else 'char'))
+        if ends == {0}: chk.ok('R01.10', site, {'function': fn['q'], 'paths_balance': 0})
+        else:
+            off = sorted(v for v in ends if v != 0)
+            # the statement where an unbalanced value first appeared
+            line = loop.get('l')
+            for (nid, v), src in where.items():
+                if v in off and src.line: line = src.line
+            chk.fail('R01.10', site, fn['file'], line, 'escape_string: a path through the character loop pushes %s code unit(s) more than it adds to the returned count '
+                     '(the pretty printer advances its column by the return value, the noesc route by the full length: the same text breaks lines differently)' % off, {'imbalance': off}, fn['q'])
 
 def r01_6(chk, facts):
     chk.rule('R01.6', 'data/size pairing: a (pointer, length) pair passed to a string_view / append / write is taken from one object '
@@ -340,4 +482,6 @@ def run(chk, tier, only_rule=None):
     r01_7(chk, facts)
     r01_8(chk, facts, tier)
     r01_6(chk, facts)
+    r01_9(chk, facts)
+    r01_10(chk, facts)
     c03.r03_1_2(chk, facts)
